@@ -76,6 +76,10 @@ def pipeline_appends(fn):
 
 def run(ck):
     F = ck.facts
+    # filter_rules / regexp_filter decide by the category's text: a verdict memo keyed by the category's address serves another category's verdict as soon as two
+    # names share an address (asynchronous copies in recycled buffers, a re-created QLoggingCategory)
+    from rules.c03 import no_pointer_identity
+    no_pointer_identity(ck, "C19-O9", scope=("CategoryFilter", "RegExpFilter", "LevelFilter"))
     ck.rule("C19-O1", "INI keys read by configure(settings) == documented keys (minus those behind a disabled build option), with the documented types and defaults")
     ck.rule("C19-O2", "each key guards the creation of the documented handler with arguments taken from the documented keys; creation order filters < formatter < sinks < async")
     ck.rule("C19-O3", "one-line configure: pretty(colour) < platform sink < [path: ANSI-stripping formatter < rotating|plain file sink] < async; rotating predicate equals SimplePipeline::sendToFile's")
